@@ -88,10 +88,85 @@ def cases(tier):
                 out.append(dict(spec=build(names, couplings(names)[1 if n >= 2 else 0], ["clone"] * n), dev=list(names) + ["clone"]))
                 out.append(dict(spec=build(names, [], ["clone"] + ["direct"] * (n - 1)), dev=list(names) + ["clone0"]))
                 out.append(dict(spec=build(names, [], ["clone_edit"] + ["clone"] * (n - 1)), dev=list(names) + ["clone_edit"]))
+    from ..common import have_networkx
+    if have_networkx():
+        for n in (1, 2, 3):
+            for meths in itertools.product(["Spline", "MS", "DC"], repeat=n):
+                if "Spline" in meths:
+                    out.append(dict(kind="mixed", methods=list(meths), dev=list(meths)))
     return out
 
 
+def chain_stage(st, meth, first):
+    """integrator chain p'=v, v'=u on stage st (representable by every method incl. SplineMethod)"""
+    import rockit
+    p = st.state(); v = st.state(); u = st.control()
+    st.set_der(p, v); st.set_der(v, u)
+    st.subject_to(-1 <= (u <= 1))
+    st.subject_to(p <= 3)
+    if first:
+        st.subject_to(st.at_t0(p) == 0.1); st.subject_to(st.at_t0(v) == 0.2)
+    st.add_objective(st.at_tf((p - 1) ** 2) + st.sum(u * u))
+    st.method({"Spline": rockit.SplineMethod(N=3), "MS": rockit.MultipleShooting(N=3), "DC": rockit.DirectCollocation(N=2, degree=2)}[meth])
+    return p, v, u
+
+
+def run_mixed(case):
+    """stages with SplineMethod next to sampling methods: the multi-stage NLP is the disjoint union of the
+    stages' own NLPs (each declared alone on the real code, decision vectors concatenated) plus the coupling"""
+    import rockit, sys
+    from .. import nlp as NL, core
+    meths = case["methods"]
+    tags = ["mixed"] + ["m=%s" % m for m in meths]
+    opts = {"ipopt.print_level": 0, "print_time": False, "ipopt.sb": "yes"}
+    try:
+        ocp = rockit.Ocp()
+        sts = []
+        for i, mth in enumerate(meths):
+            st = ocp.stage(t0=0.5 * i, T=1.0 + 0.25 * i)
+            sts.append((st,) + chain_stage(st, mth, i == 0))
+        for i in range(len(meths) - 1):
+            ocp.subject_to(sts[i][0].at_tf(sts[i][1]) == sts[i + 1][0].at_t0(sts[i + 1][1]))
+        ocp.solver("ipopt", opts)
+        big = NL.Nlp(ocp)
+        alone = []
+        for i, mth in enumerate(meths):
+            o = rockit.Ocp(t0=0.5 * i, T=1.0 + 0.25 * i)
+            chain_stage(o, mth, i == 0)
+            o.solver("ipopt", opts)
+            alone.append(NL.Nlp(o))
+    except Exception as e:
+        fr = core.rockit_frame(sys.exc_info()[2])
+        if fr is None and not isinstance(e, (RuntimeError, AttributeError, AssertionError)):
+            raise
+        return dict(violations=[dict(sig="exception:%s" % (fr or type(e).__name__), tags=tags, detail="%s: %s" % (type(e).__name__, str(e)[:200]))],
+                    evaluations=1, traces=1, transitions=len(meths), outcome="exc", nontrivial=True, sample=dict(methods=meths))
+    vios = []
+    n = sum(a.nx for a in alone)
+    if n != big.nx:
+        vios.append(dict(sig="value:mixed:nvars", tags=tags, detail="%d variables vs %d in the stages alone" % (big.nx, n)))
+    else:
+        pts = NL.alphabet(n, seed=0, full=False) + [NL.generic(n, 3, 0)]
+        fb, rb = NL.canon_rows(big, pts)
+        fs = np.zeros(len(pts)); refs = []
+        o = 0
+        for i, a in enumerate(alone):
+            fa, ra = NL.canon_rows(a, [p[o:o + a.nx] for p in pts])
+            fs += fa
+            refs += [dict(kind=r["kind"], fp=r["fp"], origin="stage%d:%d" % (i, r["idx"])) for r in ra]
+            o += a.nx
+        if not NL.close(fb, fs, 1e-9):
+            vios.append(dict(sig="value:mixed:obj", tags=tags, detail="objective %s vs sum of the stages' %s" % (fb[:2], fs[:2])))
+        missing, extra = NL.match_rows(rb, refs)
+        ncouple = len(meths) - 1
+        if missing or len(extra) != ncouple:
+            vios.append(dict(sig="value:mixed:rows", tags=tags, detail="%d stage rows missing, %d unexplained rows (expected %d coupling rows)" % (len(missing), len(extra), ncouple)))
+    return dict(violations=vios, evaluations=3, traces=1 + len(meths), transitions=len(meths), outcome=explore.sha([meths, [v["sig"] for v in vios]]), nontrivial=True, sample=dict(methods=meths))
+
+
 def run_case(case):
+    if case.get("kind") == "mixed":
+        return run_mixed(case)
     spec = case["spec"]
     res = multi.compare_multi(spec)
     tags = ["stage=%s" % n for n in spec["names"]] + ["via=%s" % v for v in set(spec["via"])] + ["coupling=%s" % c[0] for c in spec["coupling"]]
@@ -122,6 +197,6 @@ def run_case(case):
 
 def describe(tier):
     return dict(
-        rule="every stage list of length 1..3 over a 7-stage alphabet (incl. a global parameter whose value each clone receives after cloning) (MS / DC / SS, uniform and geometric grids, N, M, free end time, both times free with a per-interval parameter, explicit time in rhs / integrand / constraints) x coupling pattern (none, state continuity, time+state continuity, shared master variable with master objective, master variable together with a master parameter, master objective on a stage, combination) x declaration pattern (direct; all cloned from templates declared with another horizon; first cloned; clone then edit one clone with siblings from the same template): real multi-stage NLP rows = disjoint union of the stages' reference rows (each read back through stage.sample) + coupling rows, objective = sum of stage objectives + master terms; template's declared state unchanged",
+        rule="(mixed methods incl. SplineMethod: every list of length <=3 over {Spline, MS, DC} containing Spline, on integrator-chain stages: multi-stage NLP = concatenation of the stages' own real NLPs + coupling rows) and every stage list of length 1..3 over a 7-stage alphabet (incl. a global parameter whose value each clone receives after cloning) (MS / DC / SS, uniform and geometric grids, N, M, free end time, both times free with a per-interval parameter, explicit time in rhs / integrand / constraints) x coupling pattern (none, state continuity, time+state continuity, shared master variable with master objective, master variable together with a master parameter, master objective on a stage, combination) x declaration pattern (direct; all cloned from templates declared with another horizon; first cloned; clone then edit one clone with siblings from the same template): real multi-stage NLP rows = disjoint union of the stages' reference rows (each read back through stage.sample) + coupling rows, objective = sum of stage objectives + master terms; template's declared state unchanged",
         bound="lists of length <=3%s" % ("" if tier == "thorough" else " (length 3 restricted)"),
         assumptions=["CasADi Function evaluation and Opti bookkeeping are trusted", "generic-point alphabet", "stage.sample is the labelling of a stage's variables"])
